@@ -375,8 +375,8 @@ theorem parseExtend_extLoop_le (e : Bool) : ∀ (fuel : Nat),
             · split
               · split
                 · rename_i it2 hs
-                  exact hm1.trans (ih2 _ _ (sequence_le hs))
-                · exact hm1.trans (ih2 _ _ (It.Le.refl _))
+                  exact ih2 _ _ (hm1.trans (sequence_le hs))
+                · exact ih2 _ _ hm1
               · exact ih2 _ _ hm1
 
 theorem parseExtend_le (e : Bool) (fuel : Nat) (it : It) : It.Le it (GSplit.parseExtend e fuel it).2 :=
@@ -775,8 +775,8 @@ theorem extLoop_inv (e : Bool) (it0 i1 : It) : ∀ (fuel : Nat) (j mark : It),
           · split
             · split
               · rename_i j2 hs
-                exact ih _ _ (Or.inr hj1) (hj1.trans (sequence_le hs))
-              · exact ih _ _ (Or.inr hj1) hj1
+                exact ih _ _ hm (hj1.trans (sequence_le hs))
+              · exact ih _ _ hm hj1
             · exact ih _ _ hm hj1
 
 /-- what `parse_extend` steps over is nothing, or starts with the `(` -/
